@@ -58,7 +58,11 @@ var c20Kinds = []c20Kind{
 	{Name: "star-name", Arg: "st*r.yaml", Resolves: true, Format: "yaml", Want: `[{"st":1}]`},
 	{Name: "symlink-to-layer", Arg: "link.yaml", Resolves: true, Format: "yaml", Want: `[{"l":[1,2],"x":1,"y":2}]`},
 	{Name: "symlink-to-layer-virtual", Arg: "link.json", Resolves: true, Format: "json", Want: `[{"l":[1,2],"x":1,"y":2}]`},
+	// a file argument spelt with a very long path (8 directory levels, about 250 bytes)
+	{Name: "very-long-path", Arg: c20LongDir + "/deep.yaml", Resolves: true, Format: "yaml", Want: `[{"deep":1}]`},
 }
+
+var c20LongDir = strings.Repeat("d23456789012345678901234567890/", 8)[:8*31-1]
 
 func c20Setup(dir string) error {
 	files := map[string]string{
@@ -79,6 +83,7 @@ func c20Setup(dir string) error {
 		"d2/v.yaml":         "from: d2\n",
 		"conf[1].yaml":      "br: 1\n",
 		"st*r.yaml":         "st: 1\n",
+		c20LongDir + "/deep.yaml": "deep: 1\n",
 	}
 	os.Symlink("a.b.yaml", filepath.Join(dir, "link.yaml"))
 	for n, c := range files {
@@ -245,15 +250,21 @@ func buildC20(tier string) *core.Plan {
 	}
 	var vecs [][]int
 	vecs = append(vecs, []int{})
+	// the longest vectors range over the 18 core kinds, shorter ones over all kinds
+	const coreKinds = 18
 	for l := 1; l <= maxLen; l++ {
 		idx := make([]int, l)
+		lim := nk
+		if l == maxLen {
+			lim = coreKinds
+		}
 		var rec func(i int)
 		rec = func(i int) {
 			if i == l {
 				vecs = append(vecs, append([]int{}, idx...))
 				return
 			}
-			for k := 0; k < nk; k++ {
+			for k := 0; k < lim; k++ {
 				idx[i] = k
 				rec(i + 1)
 			}
@@ -315,7 +326,7 @@ func buildC20(tier string) *core.Plan {
 		Run:  func(c *core.Ctx, i int64) { c20Run(c, "stubb", short[i]) }}
 	return &core.Plan{
 		Spaces: []core.Space{sp, spB},
-		Rule: fmt.Sprintf("every argument vector of length 0..max over %d argument kinds (short flag, --opt=value, --opt=file.yaml, word, -, existing non-bkl file, existing layer file, virtual name of another format, unsupported extension, four kinds of layers whose evaluation fails, multi-document layer requested as TOML, missing .yaml name, empty and blank/unicode arguments, --, .yml- and .json-backed layers, the same base name in two directories, names with glob metacharacters, a symlink to a layer by its real and a virtual name), ", nk) +
+		Rule: fmt.Sprintf("every argument vector of length 0..max-1 over %d argument kinds and of length max over the first 18 (short flag, --opt=value, --opt=file.yaml, word, -, existing non-bkl file, existing layer file, virtual name of another format, unsupported extension, four kinds of layers whose evaluation fails, multi-document layer requested as TOML, missing .yaml name, empty and blank/unicode arguments, --, .yml- and .json-backed layers, the same base name in two directories, names with glob metacharacters, a symlink to a layer by its real and a virtual name), ", nk) +
 			"and vectors of length 5-8 of flags with one (thorough: two) non-flag argument(s) at every position; each invoked as recb (symlink to bklb) and as kubectl-bkl, with a recording stand-in on PATH",
 		Assumptions: []string{"the stand-in records argv and the content of every argument naming a regular file; file-argument content is parsed with encoding/json, yaml.v3 and go-toml called directly and compared with the known evaluated layers"},
 		Bounds:      map[string]any{"max_len_full": maxLen, "vectors": len(all), "kinds": nk},
